@@ -179,7 +179,8 @@ fn names(cx: &mut Cx) {
             );
         }
     }
-    for bad in gd::NOT_NAMES {
+    let near = gd::near_names();
+    for bad in gd::NOT_NAMES.iter().copied().chain(near.iter().map(|s| s.as_str())) {
         i += 1;
         if !cx.mine(i) {
             continue;
